@@ -405,7 +405,7 @@ def _visit_helper(name, which):
     stop event; any other exception = ended by an error event.  The tree is not written."""
     @contract(NQ + name, props=("C06",))
     def _(c):
-        c.param("self", "node").param("callback", "cb").param("memo", "val")
+        c.param("self", "node").param("callback", "cb").param("memo", "val", "dref")
         c.families = ("plain", "typed")
         c.result_tag = "none"
         c.modifies("tlen")
@@ -436,3 +436,89 @@ def _visit_helper(name, which):
 
 _visit_helper("_visit_pre", "pre")
 _visit_helper("_visit_post", "post")
+
+
+@contract(NQ + "visit", props=("C06", "C13"))
+def _(c):
+    """visit(callback, add_self, method, memo): the events of the callback's trace are the documented visit -- with add_self
+    the pre- / post-order visit of the branch `self` itself, without it the visit of its children in order (logic.visit_spec:
+    VPre / VPost, VKp / VKq) -- run to completion, or ended by a stop event (then the call still returns normally: the
+    StopTraversal is caught), or ended by an error event (the exception escapes).  A method without a handler
+    (level_rtl, zigzag, ..., random, unordered) is refused with NotImplementedError before any callback is made.
+    LEVEL_ORDER is an assumed variant (bounded tier).  The tree is not written."""
+    c.param("self", "node").param("callback", "cb").param("add_self", "true", "false")
+    c.param("method", "enum:pre", "enum:post", "enum:level", "enum:level_rtl", "enum:zigzag", "enum:zigzag_rtl", "enum:random", "enum:unordered").param("memo", "none", "val")
+    c.families = ("plain", "typed")
+    c.result_tag = "any"
+    c.result_alternatives = ("none", "val")
+    c.modifies("tlen", "dalloc", "ddom", "dcard")
+    c.assumed_variants = lambda tags: tags["method"] == "enum:level"
+    c.assumed_variants_reason = "Node.visit(method=LEVEL_ORDER): _visit_level has no contract (a level-order grammar with skip sets was not built); decided by the bounded tier (native/props/c06.py)"
+    c.requires("wf", lambda x: And(wf0(x), self_in_P(x)))
+    handled = lambda x: x.a.sv("method").z in ("pre", "post", "level")  # noqa: E731
+
+    def seg(x, sts):
+        m = x.a.sv("method").z
+        if m not in ("pre", "post"):
+            return z3.BoolVal(True)
+        VPre, _VKp, VPost, _VKq, VKpS, VKqS = L.visit_spec(x.h0)
+        cb, s = x.a.callback, x.a.self
+        i0, j = x.h0.tlen(cb), x.h.tlen(cb)
+        if z3.is_true(x.a.add_self):
+            V = VPre if m == "pre" else VPost
+        else:
+            V = VKpS if m == "pre" else VKqS
+        return And(Or(*[V(cb, s, i0, j, st) for st in sts]), _others_untouched(x, cb))
+
+    c.ensures("the new events are the documented visit, complete or ended by a stop event", lambda x: seg(x, (L.ST_DONE, L.EV_STOP)) if handled(x) else z3.BoolVal(True))
+    c.ensures("never returns normally for a method without a handler", lambda x: z3.BoolVal(handled(x)))
+    c.raises("NotImplementedError", when=lambda x: z3.BoolVal(not handled(x)), ensures=lambda x: z3.BoolVal(not (x.h0.changed(x.h) - {"lalloc", "dalloc", "alloc"})), props=("C06", "C13"))
+    for exc in ("ValueError", "TypeError", "UserError", "SelectBranch"):
+        r = c.may_raise(exc, ensures=lambda x: seg(x, (L.EV_ERR,)), name=f"ended by an error event ({exc})", when=lambda x: z3.BoolVal(handled(x)))
+    for r in c.raises_:
+        if r.exc != "NotImplementedError":
+            r.havoc = ("tlen",)
+
+    def inv(x):
+        m = x.a.sv("method").z
+        VK = L.visit_spec(x.h0)[1 if m == "pre" else 3]
+        cb = x.a.callback
+        first = x.h0.tlen(cb) + (1 if (z3.is_true(x.a.add_self) and m == "pre") else 0)
+        return And(VK(cb, x.a.self, x.k, first, x.h.tlen(cb)), _others_untouched(x, cb), x.g.kk == x.k, x.g.mm == x.h.tlen(cb))
+
+    c.loop(1).invariant = inv
+    c.loop(1).modifies = ("tlen",)
+    # ghost: index of the child being visited and of the first event of its visit (read where an exception leaves the loop)
+    c.loop(1).ghost["kk"] = (lambda x: z3.IntVal(0), lambda x: x.g.kk + 1)
+    c.loop(1).ghost["mm"] = (lambda x: x.h.tlen(x.a.callback), lambda x: x.h.tlen(x.a.callback))
+
+
+@contract("nutree.tree.Tree.visit", props=("C06", "C13"))
+def _(c):
+    """Tree.visit = the root's visit without the root itself."""
+    c.param("self", "tree").param("callback", "cb").param("method", "enum:pre", "enum:post", "enum:level", "enum:level_rtl", "enum:zigzag", "enum:zigzag_rtl", "enum:random", "enum:unordered").param("memo", "none", "val")
+    c.families = ("plain", "typed")
+    c.result_tag = "any"
+    c.result_alternatives = ("none", "val")
+    c.modifies("tlen", "dalloc", "ddom", "dcard")
+    c.assumed_variants = lambda tags: tags["method"] == "enum:level"
+    c.assumed_variants_reason = "Tree.visit(method=LEVEL_ORDER): see Node.visit"
+    c.requires("wf", lambda x: wf0(x))
+    handled = lambda x: x.a.sv("method").z in ("pre", "post", "level")  # noqa: E731
+
+    def seg(x, sts):
+        m = x.a.sv("method").z
+        if m not in ("pre", "post"):
+            return z3.BoolVal(True)
+        V = L.visit_spec(x.h0)[4 if m == "pre" else 5]
+        cb, s = x.a.callback, x.h0._root(x.a.self)
+        return And(Or(*[V(cb, s, x.h0.tlen(cb), x.h.tlen(cb), st) for st in sts]), _others_untouched(x, cb))
+
+    c.ensures("the new events are the visit of all top-level branches in order, complete or ended by a stop event", lambda x: seg(x, (L.ST_DONE, L.EV_STOP)) if handled(x) else z3.BoolVal(True))
+    c.ensures("never returns normally for a method without a handler", lambda x: z3.BoolVal(handled(x)))
+    c.raises("NotImplementedError", when=lambda x: z3.BoolVal(not handled(x)), ensures=lambda x: z3.BoolVal(not (x.h0.changed(x.h) - {"lalloc", "dalloc", "alloc"})), props=("C06", "C13"))
+    for exc in ("ValueError", "TypeError", "UserError", "SelectBranch"):
+        c.may_raise(exc, ensures=lambda x: seg(x, (L.EV_ERR,)), name=f"ended by an error event ({exc})", when=lambda x: z3.BoolVal(handled(x)))
+    for r in c.raises_:
+        if r.exc != "NotImplementedError":
+            r.havoc = ("tlen",)
